@@ -83,7 +83,7 @@ def cases(tier, seed):
             other = other[:25]
         for t in good + other:
             out.append(('reshape', (sh,), t))
-        for t in [(0, -1), (-2, 3), (-1, -1), (), (size,), (-1,), (size, 1), (1, -1, 1)]:
+        for t in [(0, -1), (-2, 3), (-1, -1), (), (size,), (-1,), (size, 1), (1, -1, 1), (-2, -(size // 2)), (-2, -1, size // 2)]:  # negative sizes whose product fits
             out.append(('reshape', (sh,), t))
     for tr, t in [(((2, 3), (6,)), (-1,)), (((2, 3), (3, 2)), (6,)), (((2, 3), (3, 4)), (3, -1)), (((2, 3), (3, 4)), (6,)), (((2, 2), (4,)), (2, 2))]:
         out.append(('reshape', tr, t))
